@@ -279,7 +279,7 @@ Definition print_decryption_key (k : Key) : str :=
      end
   ++ match k_format k with Some f => s_cKEYFORMAT ++ quote (print_key_format f) | None => [] end
   ++ match k_versions k with
-     | Some v => if kfv_is_default v then [] else s_cKEYFORMATVERSIONS ++ print_kfv v
+     | Some v => s_cKEYFORMATVERSIONS ++ print_kfv v
      | None => []
      end.
 
